@@ -468,10 +468,23 @@ Definition S_emitter_refuted : Prop :=
 
 (** * Concurrent writers (C17) *)
 
-(** with an atomic write path: for every number of writers and every schedule, when all
-    are done the returned entries are pairwise distinct, all are in the log, the view
-    covers the whole log, and recovery from the cached head restores all of them *)
+(** with an atomic write path: for every number of writer threads, every number of writes
+    per thread (a multi-entry call or a sequence of calls is a thread that performs several
+    single-entry writes) and every schedule, when all threads are done the acknowledged
+    entries are pairwise distinct, there is one per write, all are in the log, the log holds
+    nothing else, the view covers the whole log, recovery from the cached head restores all
+    of them, and every thread got as many entries as it made writes, in append order *)
 Definition S_writers_atomic : Prop :=
+  forall counts sched,
+    let s := wrun true sched (winitc counts) in
+    all_done s ->
+    NoDup (returned s) /\ length (returned s) = list_sum counts /\
+    (forall e, In e (returned s) -> (1 <= e <= w_log s)%nat) /\
+    w_log s = list_sum counts /\ w_view s = w_log s /\ recovered s = w_log s /\
+    Forall2 (fun a c => length a = c /\ StronglySorted lt a) (acks s) counts.
+
+(** the instance with one write per thread *)
+Definition S_writers_atomic_single : Prop :=
   forall n sched,
     let s := wrun true sched (winit n) in
     all_done s ->
@@ -485,6 +498,12 @@ Definition S_writers_refuted_recovery : Prop :=
   exists n sched, let s := wrun false sched (winit n) in all_done s /\ (recovered s < w_log s)%nat.
 Definition S_writers_refuted_view : Prop :=
   exists n sched, let s := wrun false sched (winit n) in all_done s /\ (w_view s < w_log s)%nat.
+(** ... and a thread in the middle of a multi-entry call can do the same to a write that
+    was acknowledged to another thread while it was on its way *)
+Definition S_writers_refuted_batch : Prop :=
+  exists counts sched,
+    let s := wrun false sched (winitc counts) in
+    all_done s /\ (exists c, In c counts /\ (2 <= c)%nat) /\ (recovered s < w_log s)%nat.
 
 (** * Joining a fetched multi-entry log (Load from disk, LoadFromSnapshot) *)
 
